@@ -42,7 +42,7 @@ prop('C03', ['K1', 'K3', 'K4', 'K5', 'K7', 'K8', 'M7', 'F1', 'F7', 'F10', 'T4'],
      'agree with the engine arms (T4).',
      ['equality of the produced lists for every input'])
 
-prop('C04', ['T5', 'N1', 'F8', 'M4', 'K4'],
+prop('C04', ['T5', 'N1', 'N2', 'F8', 'M4', 'K4'],
      'Paths and accessors, structural part: the path entry class per kind agrees between the '
      'engine, the Python registry literal and accessor.py (T5); flatten-with-path, PathsImpl, '
      'AccessorsImpl, Entries and Entry use the same entry per kind (index / key from the list that '
@@ -77,7 +77,7 @@ prop('C07', ['P1', 'P2cxx', 'P2py', 'P3', 'P4', 'W1', 'H3', 'K3', 'M7'],
      'working copy (W1); <, <=, >, >=, is_suffix are wired as converses (H3).',
      ['exactness over all pairs', 'offset arithmetic of the re-ordering branch'])
 
-prop('C08', ['I3', 'M5', 'M6', 'F9', 'T6', 'K1'],
+prop('C08', ['I3', 'M5', 'M5b', 'M6', 'F9', 'T6', 'K1'],
      'Inspection / constructors: entry(i)/child(i) range test and normalisation dominate all uses '
      'of the index (I3); every new treespec gets none_is_leaf and namespace from its source(s) and '
      'passes the sanity check before it escapes (M5, 14 creation sites); children() and child() '
@@ -85,7 +85,7 @@ prop('C08', ['I3', 'M5', 'M6', 'F9', 'T6', 'K1'],
      'says (F9); the Python predicates use the engine\'s formulas (T6); K1.',
      ['count identities', 'transform/compose algebra', 'repr text'])
 
-prop('C09', ['M4', 'P1', 'P4', 'K4', 'F1', 'F2'],
+prop('C09', ['M4', 'M5b', 'P1', 'P4', 'K4', 'F1', 'F2'],
      'Broadcasting, structural part: the merge walker copies every payload field of a node (M4); '
      'its kind x kind compatibility equals the prefix matchers\' (P1); it walks backwards with '
      'descending loops and one final reverse (K4); the Python layer forwards options and uses the '
@@ -138,7 +138,7 @@ prop('C15', ['E1', 'E2', 'E3', 'E4', 'E5', 'E6', 'K7', 'I2', 'A5'],
      'call leaves its operands untouched (A5).',
      ['reference-count equality after a fault at every k'], thorough_rules=['X1'])
 
-prop('C16', ['K8', 'K9', 'K9py', 'I1', 'I2', 'I3', 'S3'],
+prop('C16', ['K8', 'K9', 'K9py', 'K7', 'I1', 'I2', 'I3', 'S3'],
      'Memory safety / recursion, structural part: the three forward traversals share one depth '
      'discipline (K8); every recursive cycle of the engine call graph is bounded by '
      'MAX_RECURSION_DEPTH (K9) and Python-level recursion over tree depth is enumerated (K9py); no '
@@ -147,7 +147,7 @@ prop('C16', ['K8', 'K9', 'K9py', 'I1', 'I2', 'I3', 'S3'],
      'unchecked reads rely on (S3).',
      ['absence of all undefined behaviour'], thorough_rules=['X1'])
 
-prop('C17', ['L1', 'L2', 'L3', 'L4', 'L5', 'T3'],
+prop('C17', ['L1', 'L2', 'L3', 'L4', 'L5', 'T3', 'T3b'],
      'Concurrency, structural part: no call that can run Python code inside a region of a C++ '
      'mutex (these block with the GIL held) (L1); the lock graph is acyclic (L2); every access to '
      'shared engine state is inside a region of its mutex in the right mode (L3); registry '
@@ -156,7 +156,7 @@ prop('C17', ['L1', 'L2', 'L3', 'L4', 'L5', 'T3'],
      '(T3).',
      ['linearizability over schedules'])
 
-prop('C18', ['T1', 'T2', 'T3', 'T4', 'T5', 'T6', 'K7py', 'K6py'],
+prop('C18', ['T1', 'T2', 'T3', 'T3b', 'T4', 'T5', 'T6', 'K7py', 'K6py'],
      'Twins: both recognisers test the same atoms (T1); the key sort twin has the same stages and '
      'last resort (T2); cached answers are evicted with the class (T3); one-level handlers (T4), '
      'path entry classes (T5), treespec predicates (T6), flatten-result validation (K7py) and '
